@@ -41,6 +41,7 @@ def check(ctx, report):
     rejections.check(ctx, report, 'C07.R9', 'ssh')
     mpint_sign(ctx, report)
     software_versions(ctx, report)
+    eddsa_curves(ctx, report)
     report.rule('C07.R8', 'name-lists: split at commas, order kept, unknown names preserved one by one')
     from ..textlists import string_array_table
     string_array_table(ctx, report, 'C07.R8', 'ssh')
@@ -477,3 +478,69 @@ def software_versions(ctx, report):
                 report.add(rule, '%s@token[%s]' % (c.construct, 'plain' if version is None or sep not in version else 'separator-in-version'),
                            'the token %r is parsed as version %r consuming %s of %d bytes; the composer would have written it for version %r' % (
                                token, built.get('version'), consumed, len(token), version))
+
+
+# ---- R11: the curve of an EdDSA key is the curve its algorithm name says ----------------------------------------------------
+
+def eddsa_curves(ctx, report, RULE='C07.R11'):
+    """RFC 8709: ssh-ed25519 keys are 32 octet Ed25519 points, ssh-ed448 keys 57 octet Ed448 points.  The key object built by
+    SshHostKeyEDDSABase._parse_host_key is evaluated (sa.miniexec) for both names: its curve parameter has to be the curve of the
+    algorithm - from which the key size and the textual form of the key are derived."""
+    import ast
+    from ..miniexec import Evaluator, Native, Obj, Raised, Unsupported, class_call_hook
+    report.rule(RULE, 'EdDSA host keys: the curve of the parsed key object is the curve of the algorithm name (RFC 8709)')
+    c = ctx.model.try_cls('SshHostKeyEDDSABase')
+    f = c.methods.get('_parse_host_key') if c is not None else None
+    if f is None:
+        report.error(RULE + ': SshHostKeyEDDSABase._parse_host_key vanished')
+        return
+    report.touch(f)
+
+    class Parser(Native):
+        def __init__(self, algorithm, key):
+            self.values = {'host_key_algorithm': algorithm}
+            self.key = key
+
+        def parse_bytes(self, name, size):
+            self.values[name] = bytearray(self.key)
+
+        def __getitem__(self, name):
+            return self.values[name]
+
+        def __delitem__(self, name):
+            del self.values[name]
+    made = {}
+
+    def extra(n, ev):
+        d = ast.unparse(n.func)
+        if d == 'PublicKeyParamsEddsa':
+            made.update({k.arg: ev.ev(k.value) for k in n.keywords})
+            return Obj(**made)
+        if d == 'PublicKey.from_params':
+            return Obj(params=ev.ev(n.args[0]))
+        return NotImplemented
+
+    def names(name):
+        if name.startswith(('NamedGroup.', 'Signature.', 'SshHostKeyAlgorithm.')):
+            return name          # members of the dependency's enumerations stand for themselves
+        raise Unsupported('free name ' + name)
+    hook = class_call_hook(c, extra, ctx.model)
+    nh = hook.name_hook_for(c.module, names)
+    TABLE = [('ssh-ed25519', 'SshHostKeyAlgorithm.SSH_ED25519', 'Signature.ED25519', 32, 'NamedGroup.CURVE25519'),
+             ('ssh-ed448', 'SshHostKeyAlgorithm.SSH_ED448', 'Signature.ED448', 57, 'NamedGroup.CURVE448')]
+    params = [a.arg for a in f.node.args.args]
+    try:
+        for name, member, signature, octets, want in TABLE:
+            report.count(RULE)
+            made.clear()
+            algorithm = Obj(name=member.split('.')[-1], value=Obj(code=name, signature=signature))
+            Evaluator(dict(zip(params, ['cls', Parser(algorithm, b'\x11' * octets)])), hook, nh).function(f.node)
+            got = made.get('curve_type')
+            if got != want:
+                report.add(RULE, '%s@curve[%s]' % (f.construct, name), 'a %s key (%d octets) is given the curve %s, RFC 8709 says %s: key size and the rendered key are those of another curve' % (
+                    name, octets, got, want))
+            else:
+                report.sample({'rule': RULE, 'algorithm': name, 'curve': got})
+    except (Unsupported, Raised) as e:
+        report.add(RULE, f.construct + '@tabulation', 'the EdDSA key parser left the subset the tabulation understands: %s' % e)
+    report.floor(RULE, 2, 'EdDSA algorithm names')
